@@ -93,18 +93,19 @@ Qed.
 
 Definition is_tuple (t : ty) : bool := match t with TTuple _ => true | _ => false end.
 
-(* the Python AST of the printed text of [t]; note the two places where Python's grammar
-   interferes: a sole subscript that is a tuple is flattened unless it has a trailing comma *)
+(* the Python AST of the printed text of [t] — for EVERY first-order type, also where Python's
+   grammar makes it differ from the intended one: the printed 1-tuple `(a)` is just `a`, and a sole
+   argument is the subscript itself, so that `X[(a, b)]` has the slice `(a, b)` = two arguments *)
 Fixpoint ast_of (t : ty) : pyexpr :=
   match t with
   | TNum k => PName (num_name k)
   | TNone => PNone
   | CNat n => PNum n
-  | TTuple ts => PTuple (map ast_of ts)
+  | TTuple ts => match ts with [x] => ast_of x | _ => PTuple (map ast_of ts) end
   | TApp d args =>
       match args with
       | [] => PName d
-      | [a] => PSub (PName d) (if is_tuple a then PTuple [ast_of a] else ast_of a)
+      | [a] => PSub (PName d) (ast_of a)
       | _ => PSub (PName d) (PTuple (map ast_of args))
       end
   | _ => PNone
@@ -165,10 +166,12 @@ Proof.
     assert (HS : Forall sim ts).
     { rewrite Forall_forall in *. rewrite forallb_forall in Hfo. intros x Hx. apply H; auto. }
     cbn [prf]. change tuple_open with [TLP]. change tuple_close with [TRP]. change tuple_sep with [TComma].
-    change tuple_single_suffix with [TComma].
+    change tuple_single_suffix with (@nil token).
     destruct ts as [|x [|y l]].
     + reflexivity.
-    + inversion HS; subst. simpl. rewrite <- app_assoc. rewrite H2. reflexivity.
+    + (* the printed 1-tuple is a parenthesised expression *)
+      inversion HS; subst. cbn [length Nat.eqb map join app ast_of]. rewrite <- app_assoc.
+      cbn [run step]. rewrite H2. reflexivity.
     + inversion HS; subst.
       cbn [length Nat.eqb app]. rewrite <- !app_assoc.
       cbn [run step]. rewrite run_seq; auto.
@@ -180,12 +183,13 @@ Proof.
     assert (HS : Forall sim args).
     { rewrite Forall_forall in *. rewrite forallb_forall in Hfo. intros x Hx. apply H; auto. }
     cbn [prf ast_of]. change app_open with [TLB]. change app_close with [TRB]. change app_sep with [TComma].
-    change app_sole_tuple_suffix with [TComma].
+    change app_sole_tuple_suffix with (@nil token).
     destruct args as [|x [|y l]].
     + simpl. rewrite name_atom_plain; auto.
-    + inversion HS; subst. cbn [app run step]. rewrite name_atom_plain by auto.
-      cbn [map join]. rewrite <- !app_assoc. rewrite H2.
-      destruct x; reflexivity.
+    + (* a sole argument is the subscript itself, whatever it is *)
+      inversion HS; subst. cbn [app run step]. rewrite name_atom_plain by auto.
+      cbn [map join]. replace (if is_sole_tuple [x] then [] else []) with (@nil token) by (destruct (is_sole_tuple [x]); reflexivity).
+      cbn [app]. rewrite <- !app_assoc. rewrite H2. reflexivity.
     + inversion HS; subst. cbn [app run step]. rewrite name_atom_plain by auto.
       rewrite <- !app_assoc. rewrite run_seq; auto.
       pose proof (seq_end_spec (y :: l) x [] false) as Hs.
@@ -211,50 +215,52 @@ Proof.
 Qed.
 
 Lemma ast_of_arg : forall E l,
-  Forall (fun t => wfa E t = true -> arg_of E (ast_of t) = Some t) l ->
-  forallb (wfa E) l = true ->
+  Forall (fun t => wfa E t = true -> safe t = true -> arg_of E (ast_of t) = Some t) l ->
+  forallb (wfa E) l = true -> forallb safe l = true ->
   map_opt (arg_of E) (map ast_of l) = Some l.
 Proof.
-  induction l; intros HF Hw; simpl in *; auto.
-  apply andb_prop in Hw as [Ha Hl]. inversion HF; subst. rewrite H1, IHl; auto.
+  induction l; intros HF Hw Hs; simpl in *; auto.
+  apply andb_prop in Hw as [Ha Hl]. apply andb_prop in Hs as [Hsa Hsl].
+  inversion HF; subst. rewrite H1, IHl; auto.
 Qed.
 
 Lemma wf_is_type : forall E t, wf E t = true -> is_type t = true.
 Proof. destruct t; simpl; auto; discriminate. Qed.
 
 Lemma ast_of_type : forall E l,
-  Forall (fun t => wfa E t = true -> arg_of E (ast_of t) = Some t) l ->
-  forallb (wf E) l = true ->
+  Forall (fun t => wfa E t = true -> safe t = true -> arg_of E (ast_of t) = Some t) l ->
+  forallb (wf E) l = true -> forallb safe l = true ->
   map_opt (fun x => as_type (arg_of E x)) (map ast_of l) = Some l.
 Proof.
-  induction l; intros HF Hw; simpl in *; auto.
-  apply andb_prop in Hw as [Ha Hl]. inversion HF; subst.
+  induction l; intros HF Hw Hs; simpl in *; auto.
+  apply andb_prop in Hw as [Ha Hl]. apply andb_prop in Hs as [Hsa Hsl]. inversion HF; subst.
   rewrite H1 by (destruct a; auto). simpl. rewrite (wf_is_type E a Ha). rewrite IHl; auto.
 Qed.
 
-Lemma arg_of_ast_of : forall E, env_ok E -> forall t, wfa E t = true -> arg_of E (ast_of t) = Some t.
+Lemma arg_of_ast_of : forall E, env_ok E -> forall t, wfa E t = true -> safe t = true -> arg_of E (ast_of t) = Some t.
 Proof.
-  intros E HE. induction t using ty_ind'; intros Hw; simpl in Hw; try discriminate.
+  intros E HE. induction t using ty_ind'; intros Hw Hs; simpl in Hw; try discriminate.
   - simpl. rewrite HE. reflexivity.
   - reflexivity.
-  - simpl. rewrite ast_of_type; auto.
+  - (* tuple: not a 1-tuple *)
+    simpl in Hs. apply andb_prop in Hs as [Hlen Hs].
+    assert (Hm : map_opt (fun x => as_type (arg_of E x)) (map ast_of ts) = Some ts) by (apply ast_of_type; auto).
+    destruct ts as [|x [|y l]]; [reflexivity | simpl in Hlen; discriminate |].
+    cbn [ast_of arg_of]. rewrite Hm. reflexivity.
   - apply andb_prop in Hw as [Hk Hw]. apply negb_true_iff in Hk.
+    simpl in Hs. apply andb_prop in Hs as [Hsole Hs]. apply negb_true_iff in Hsole.
     destruct (slookup d E) as [[| |ps c1 c2]|] eqn:Hd; try discriminate.
     apply andb_prop in Hw as [Hw Hargs]. apply andb_prop in Hw as [Hlen Hfit].
     pose proof (fits_params_ok E ps args Hlen Hfit) as Hpo.
     assert (Hall : map_opt (arg_of E) (map ast_of args) = Some args) by (apply ast_of_arg; auto).
     destruct args as [|x [|y l]].
     + simpl. rewrite Hd. simpl. rewrite Hpo. reflexivity.
-    + cbn [ast_of]. destruct (is_tuple x) eqn:Ht.
-      * cbn [arg_of]. rewrite Hd. simpl in Hall. simpl map_opt.
-        destruct (arg_of E (ast_of x)); try discriminate. inversion Hall; subst.
-        simpl. rewrite Hpo. reflexivity.
-      * simpl in Hall. destruct (arg_of E (ast_of x)) eqn:Hx; try discriminate. inversion Hall; subst.
-        cbn [arg_of]. rewrite Hd.
-        destruct x; simpl in Ht; try discriminate; cbn [ast_of] in *;
-          try (rewrite Hx; simpl; rewrite Hpo; reflexivity).
-        (* TApp inside: its ast is PName or PSub, never PTuple *)
-        destruct args as [|a1 [|a2 l2]]; rewrite Hx; simpl; rewrite Hpo; reflexivity.
+    + (* sole argument, not a tuple: its ast is never a PTuple *)
+      simpl in Hall. destruct (arg_of E (ast_of x)) eqn:Hx; try discriminate. inversion Hall; subst.
+      cbn [ast_of arg_of]. rewrite Hd.
+      destruct x; simpl in Hsole; try discriminate; cbn [ast_of] in *;
+        try (rewrite Hx; simpl; rewrite Hpo; reflexivity).
+      destruct args as [|a1 [|a2 l2]]; rewrite Hx; simpl; rewrite Hpo; reflexivity.
     + cbn [ast_of arg_of]. rewrite Hd. rewrite Hall. simpl. rewrite Hpo. reflexivity.
   - reflexivity.
 Qed.
@@ -264,9 +270,9 @@ Qed.
 Lemma print_is_prf : forall t, fo t = true -> print t = prf t.
 Proof. intros t H. unfold print. rewrite pr_fo; auto. Qed.
 
-Lemma roundtrip : forall E t, env_ok E -> wf E t = true -> parse E (print t) = Some t.
+Lemma roundtrip : forall E t, env_ok E -> wf E t = true -> safe t = true -> parse E (print t) = Some t.
 Proof.
-  intros E t HE Hw.
+  intros E t HE Hw Hsafe.
   assert (Hwa : wfa E t = true) by (destruct t; auto).
   pose proof (wfa_fo E t Hwa) as Hfo.
   unfold parse, py_parse. rewrite print_is_prf by auto.
